@@ -13,7 +13,7 @@ from .engine import Record, Raised
 from . import extract
 
 HERE = os.path.dirname(os.path.abspath(__file__))
-DEFINED_FUNCS = {'be', 'unbe'}
+DEFINED_FUNCS = {'be', 'unbe', 'le'}
 ABSTRACT_PREFIXES = ('fstr!', 'str_of', 'fmt!', 'bfmt!', 'hex!', 'decoded!', 'excattr')
 
 
